@@ -393,3 +393,15 @@ package props
 //@   requires argsOK(args)
 //@   ensures  len(args) >= 1 && traceMap(args[0]) != nil ==> isT(res, *object.PanInt) && as(res, *object.PanInt).Value == len(*traceMap(args[0]).HashKeys) + len(*traceMap(args[0]).NonHashablePairs)
 //@   assigns  nothing
+//
+// ---- C05: `which` names the owner the chain search finds, and nothing else ---------------------------------
+//@ props C05
+//@ func props.ObjProps["which"](env, kwargs, args) res
+//@   uses     traceStr_def
+//@   requires argsOK(args)
+//@   let ok := len(args) >= 2 && traceStr(args[1]) != nil
+//@   ensures  !ok ==> isT(res, *object.PanErr) && ncalls == 0
+//@   ensures  ok ==> ncalls == 1 && called(0, object.FindPropOwner) && arg1(0) == args[0] && arg2(0) == symhash(traceStr(args[1]).Value)
+//@   ensures  ok ==> res == (resultok(0) ? result(0) : object.BuiltInNil)
+//@   assigns  nothing
+
